@@ -30,11 +30,16 @@ def corpus_cases(maxlen=70000):
     return out
 
 
+# Windows FILETIME values around the points where a conversion to Unix time changes character
+_E = 116444736000000000
+WINTIMES = [0, 1, _E - 10000000, _E - 1, _E, _E + 1, _E + 9999999, _E + 10000000, _E + (2 ** 31 - 1) * 10000000, _E + 2 ** 31 * 10000000,
+            _E + (2 ** 32 - 1) * 10000000, _E + 2 ** 32 * 10000000, 2 ** 63 - 1, 2 ** 63, 2 ** 64 - 1]
+
 EXT_BUILDERS = {
     0x00: lambda r: arc.x_common(bytes(r.randrange(256) for _ in range(r.choice([0, 0, 1, 3])))),
     0x01: lambda r: arc.x_name(rand_name(r)),
     0x02: lambda r: arc.x_path(rand_path(r)),
-    0x41: lambda r: arc.x_wintime(r.getrandbits(64), r.getrandbits(64), r.getrandbits(64)),
+    0x41: lambda r: arc.x_wintime(*[r.choice(WINTIMES + [r.getrandbits(64)]) for _ in range(3)]),
     0x50: lambda r: arc.x_perm(r.choice([0o100644, 0o40755, 0o120777, 0, 0xFFFF, r.getrandbits(16)])),
     0x51: lambda r: arc.x_uidgid(r.choice([0, 1, 1000, 65535]), r.choice([0, 100, 65535])),
     0x52: lambda r: arc.x_group(rand_name(r)),
